@@ -369,6 +369,27 @@ func runTree(c *vf.Check, gn string, t tree) {
 			if verify(prf, pv, b.pred, "c14-other") == nil {
 				x.Failf(pk+"/other-protocol-accepted", "%s: proof accepted under another protocol name", id)
 			}
+			// long protocol names (e.g. a message used as the name) that differ only far into the string
+			if len(b.reps) <= 2 {
+				long := strings.Repeat("protocol name of 300 characters ", 10)[:300]
+				lp, err := proof.HashProve(suite, long, b.pred.Prover(suite, sv, pv, choice))
+				if err != nil {
+					x.Failf(pk+"/prove-failed", "%s: HashProve under a 300-character protocol name: %v", id, err)
+				} else {
+					if verify(lp, pv, b.pred, long) != nil {
+						x.Failf(pk+"/honest-rejected", "%s: proof under a 300-character protocol name rejected", id)
+					}
+					for _, at := range []int{299, 200, 129, 128, 127, 64, 0} {
+						other := []byte(long)
+						other[at] ^= 1
+						c.Eval(1)
+						if verify(lp, pv, b.pred, string(other)) == nil {
+							x.Failf(pk+"/other-protocol-accepted", "%s: proof made under a 300-character protocol name is accepted under a name that differs in character %d", id, at)
+							break
+						}
+					}
+				}
+			}
 			// each public point replaced
 			for name := range pv {
 				if !strings.HasPrefix(name, "P") && !usesBase(b, name) {
